@@ -20,8 +20,8 @@ ASSUMPTIONS = ["histories are enumerated (structure); the solver covers addresse
                "random longer histories are not used: sampling is not this technique's deciding step"]
 
 SEEDS = {
-    "flat": [AG.A("permit", src=AG.X24), AG.A("permit", src=("h", "Xh")), AG.A("deny", src=("h", "Y")), AG.A("permit", src=("h", "Xh")),
-             AG.A("deny", "ip")],
+    "flat": [AG.A("permit", src=AG.X24), AG.A("permit", "tcp", src=("h", "Xh"), dport=("eq", ["q"])), AG.A("deny", src=("h", "Y")),
+             AG.A("permit", src=("h", "Xh")), AG.A("deny", "ip"), AG.A("deny", "udp", dport=("eq", ["q"]))],
     "grouped": [AG.R("= g1, first"), AG.A("permit", src=AG.X24), AG.R("note"), AG.A("permit", src=("h", "Xh"), log="log"), AG.R("= g2"),
                 AG.A("deny", "tcp", dst=("h", "Y"), flags=["ack"])],
     "groups": [AG.A("permit", "tcp", src=("g", "G1"), dport=("eq", ["p", "q"])), AG.A("permit", src=("h", "Xh")),
@@ -179,6 +179,12 @@ def h_history(ctx):
             AG.attach_groups(w, fresh)
             fresh = _apply(fresh, op, w)
             cl(f"s{k}:{op}:history-independent", Not_(fresh.line == acl.line))
+            if op in ("delete_shadow", "ungroup_ports"):
+                # which entries are removed / split must not depend on the names-as-numbers switches set earlier
+                plain = Acl(prev_text, **dict(prev_kw, port_nr=True, protocol_nr=False))
+                AG.attach_groups(w, plain)
+                plain = _apply(plain, op, w)
+                cl(f"s{k}:{op}:independent-of-switches", len(plain.line.split("\n")) != len(acl.line.split("\n")))
         cl.done()
     ctx.reach("history")
     return None
